@@ -1,4 +1,5 @@
 import BFL.Model.KF
+import BFL.Model.KFHist
 import BFL.Bridge.Mat
 import Mathlib.LinearAlgebra.Matrix.PosDef
 import Mathlib.Algebra.Order.Star.Real
@@ -69,5 +70,99 @@ example : (toM (Mat.zero : Mat ℝ 2 2)).PosSemidef ∧ (toM (Mat.one : Mat ℝ 
   constructor
   · rw [toM_zero]; exact Matrix.PosSemidef.zero
   · rw [toM_one]; exact Matrix.PosSemidef.one
+
+
+/-! ## The dispatch in front of the step and whole histories (`Model/KFHist.lean`) -/
+
+/-- **Dispatch** (`GaussianPrediction::predict` → `KFPrediction::predictStep` →
+    `LinearStateModel::propagate`): with the prediction or the state model skipped the previous belief
+    is handed over as a whole (weights included); otherwise the step is `kfPredict` with the
+    exogenous contribution present exactly when a model is attached and not skipped. -/
+theorem kfp_dispatch (s : KFHStep ℝ n) (prev out : GM ℝ n k) :
+    ((s.skipPred || s.skipState) = true → kfGaussPredict s prev out = prev) ∧
+    ((s.skipPred || s.skipState) = false →
+      kfGaussPredict s prev out = kfPredict s.F s.Q (if s.skipExo then none else s.exo) prev out) := by
+  unfold kfGaussPredict KFHStep.effExo
+  by_cases h1 : s.skipPred <;> by_cases h2 : s.skipState <;> simp [h1, h2]
+
+/-- mean and covariance of one component -/
+abbrev KfpStat (n : Nat) := (Fin n → ℝ) × Matrix (Fin n) (Fin n) ℝ
+
+/-- the exact time update of one component through one step of a history -/
+noncomputable def kfpTimeUpdate (x : KfpStat n) (s : KFHStep ℝ n) : KfpStat n :=
+  if s.skipPred || s.skipState then x
+  else (toM s.F *ᵥ x.1 + (match s.effExo with | none => 0 | some g => toV (g (Vec.of x.1))),
+        toM s.F * x.2 * (toM s.F)ᵀ + toM s.Q)
+
+/-- **History lift**: through any history in which no step hands a measurement to the correction
+    (none available, or the correction skipped) — any length, time-varying `F`, `Q`, exogenous
+    input, any skip flags — component `i` of the filter's belief is the iterated exact time update
+    of component `i` of the initial belief, the corrected belief *is* the predicted one after every
+    step, and the covariance stays symmetric positive semi-definite when the initial one and every
+    `Q` are.  No inverse is ever taken (`inv` arbitrary). -/
+theorem kfp_history (inv : (m : Nat) → Mat ℝ m m → Mat ℝ m m) (steps : List (KFHStep ℝ n))
+    (hno : ∀ s ∈ steps, s.skipCorr = true ∨ s.meas = none) (st0 : KFFilter ℝ n k) (i : Fin k) :
+    ((toV ((kfFilterRun inv st0 steps).corr.mean i), toM ((kfFilterRun inv st0 steps).corr.cov i)) : KfpStat n)
+        = steps.foldl kfpTimeUpdate (toV (st0.corr.mean i), toM (st0.corr.cov i)) ∧
+    (steps ≠ [] → (kfFilterRun inv st0 steps).corr = (kfFilterRun inv st0 steps).pred) ∧
+    ((toM (st0.corr.cov i)).PosSemidef → (∀ s ∈ steps, (toM s.Q).PosSemidef) →
+      (toM ((kfFilterRun inv st0 steps).corr.cov i)).PosSemidef ∧
+      (toM ((kfFilterRun inv st0 steps).corr.cov i))ᵀ = toM ((kfFilterRun inv st0 steps).corr.cov i)) := by
+  have hcorr : ∀ (s : KFHStep ℝ n), (s.skipCorr = true ∨ s.meas = none) → ∀ st : KFFilter ℝ n k,
+      (kfFilterStep inv st s).corr = kfGaussPredict s st.corr st.pred ∧
+      (kfFilterStep inv st s).pred = kfGaussPredict s st.corr st.pred := by
+    intro s hs st
+    rcases hs with h | h <;> simp [kfFilterStep, kfGaussCorrect, h]
+  have hstat : ∀ (s : KFHStep ℝ n) (prev out : GM ℝ n k),
+      ((toV ((kfGaussPredict s prev out).mean i), toM ((kfGaussPredict s prev out).cov i)) : KfpStat n)
+        = kfpTimeUpdate (toV (prev.mean i), toM (prev.cov i)) s := by
+    intro s prev out
+    unfold kfGaussPredict kfpTimeUpdate
+    by_cases h1 : s.skipPred
+    · simp [h1]
+    · by_cases h2 : s.skipState
+      · simp [h2]
+      · simp only [h1, h2, Bool.false_eq_true, if_false, Bool.or_self]
+        ext : 1
+        · have e : Vec.of (toV (prev.mean i)) = prev.mean i := rfl
+          cases hE : s.effExo <;> simp [kfPredict, propagateMean, e]
+        · simp [kfPredict, kfPredictCov]
+  induction steps generalizing st0 with
+  | nil => exact ⟨rfl, fun h => absurd rfl h, fun h _ => ⟨h, by simpa [kfFilterRun] using h.1.eq⟩⟩
+  | cons s rest ih =>
+    have hs := hno s (by simp)
+    obtain ⟨ec, ep⟩ := hcorr s hs st0
+    obtain ⟨i1, i2, i3⟩ := ih (fun s' hs' => hno s' (by simp [hs'])) (kfFilterStep inv st0 s)
+    simp only [kfFilterRun, List.foldl_cons] at i1 i2 i3 ⊢
+    refine ⟨?_, ?_, ?_⟩
+    · rw [i1, ec, hstat]
+    · intro _
+      cases rest with
+      | nil => simp only [List.foldl_nil]; rw [ec, ep]
+      | cons a l => exact i2 (by simp)
+    · intro hP hQ
+      apply i3
+      · rw [ec]
+        unfold kfGaussPredict
+        by_cases h1 : s.skipPred
+        · simpa [h1] using hP
+        · by_cases h2 : s.skipState
+          · simpa [h1, h2] using hP
+          · simp only [h1, h2, Bool.false_eq_true, if_false]
+            exact kfp_posSemidef s.F (st0.corr.cov i) s.Q hP (hQ s (by simp))
+      · intro s' hs'; exact hQ s' (by simp [hs'])
+
+/-- Non-vacuity: a two-step prediction-only history (one plain step, one skipped). -/
+example : ∃ steps : List (KFHStep ℝ 2), steps.length = 2 ∧ (∀ s ∈ steps, s.skipCorr = true ∨ s.meas = none) ∧
+    (∀ s ∈ steps, (toM s.Q).PosSemidef) := by
+  refine ⟨[{ F := Mat.one, Q := Mat.one, exo := none, skipPred := false, skipState := false, skipExo := false, meas := none, skipCorr := false },
+           { F := Mat.one, Q := Mat.zero, exo := none, skipPred := true, skipState := false, skipExo := false, meas := none, skipCorr := true }], rfl, ?_, ?_⟩
+  · intro s hs; simp at hs; rcases hs with rfl | rfl <;> simp
+  · intro s hs; simp at hs
+    rcases hs with rfl | rfl
+    · show (toM (Mat.one : Mat ℝ 2 2)).PosSemidef
+      rw [toM_one]; exact Matrix.PosSemidef.one
+    · show (toM (Mat.zero : Mat ℝ 2 2)).PosSemidef
+      rw [toM_zero]; exact Matrix.PosSemidef.zero
 
 end BFL
